@@ -45,6 +45,7 @@ var c04eAlphabet = []c04eEvent{
 	{Q: q(c04X1, "p.", dns.TypeA, dns.ClassCHAOS, false, false, "")},
 	{Q: q(c04Y1, "dep.", dns.TypeA, dns.ClassINET, false, false, "")},
 	{Q: q(c04X1, "dep.", dns.TypeA, dns.ClassINET, false, false, "")},
+	{Q: q("10.3.0.5", "dep.", dns.TypeA, dns.ClassINET, false, false, "")},
 	{Q: q(c04X1, "p.", dns.TypeA, dns.ClassINET, false, false, "0.0.0.0/0")},
 	{Advance: 29.03},
 	{Advance: 301.3},
